@@ -52,6 +52,12 @@ def plan(tier, seed, models=None, extra_default=True):
             if name in names:
                 for c, v, d in itertools.product(CONS, VARH, DOMH):
                     runs.append((name, dict(cons=c, varh=v, domh=d)))
+    # targeted: the three-way split of mid_value / min_cost (interior value) under constraints with one-sided wake-up masks
+    for name in ("lt", "geq_leq", "alldiff_lt", "max_leq_min_geq", "shared_offset_lt", "obj_under_leq", "circuit3"):
+        if name in names:
+            for varh in ("first", "smallest"):
+                runs.append((name, dict(varh=varh, domh="mid")))
+                runs.append((name, dict(varh=varh, domh="cost", table=1)))
     # decision-domain subsets that still determine every variable
     for name, dec in (("sum_eq", [0]), ("max_eq", [0, 1]), ("obj_shared_offset", [0])):
         if name in names:
